@@ -268,6 +268,12 @@ func propC05(c *Ctx) {
 
 	// ---- op-table ---------------------------------------------------------------------
 	propOpTable(c)
+	rpp := c.Rule("parser-progress", "every token-driven loop of the parser consumes at least one token per iteration on every path (Compile always terminates)", 10)
+	ruleParserProgress(c, rpp)
+	rnn := c.Rule("node-nonnil", "every pointer-typed AST field that the compiler or optimizer dereferences without a nil test is stored by the parser with a value that is non-nil on every path", 3)
+	ruleNodeNonNil(c, rnn)
+	rdk := c.Rule("defined-symbol-kind", "an instruction is emitted with the index of a symbol obtained from DefineLocal only where the symbol is fresh or its Constant / Scope field has been tested (a literal constant has index -1)", 4)
+	ruleDefinedSymbolKind(c, rdk)
 }
 
 func isErrorType(t types.Type) bool {
